@@ -871,6 +871,18 @@ def analyze(ctx, want):
             det = ""
             for conds, r in tt:
                 s = S.vstr(r)
-                ok = "get_unchecked" in s and S.mentions(r, lambda x: x == ("sym", "match_functions")) and S.mentions(r, lambda x: x == ("sym", "ch")) and S.mentions(r, lambda x: x == ("sym", "arg2"))
-                det = s[:140]
+                # exactly: predicate at index <the given class id> applied to <the given char> — the index is unchecked, and an
+                # index computed from the id (id + 1, id.max(1), ..) selects another class's predicate or reads out of bounds
+                gu = [x for x in S.subterms(r) if x[0] == "app" and re.search(r"get_unchecked(::<.*>)?$", str(x[1])) and len(x[2]) == 2]
+                ok = False
+                if len(gu) == 1:
+                    idx = gu[0][2][1]
+                    n_ = 0
+                    while n_ < 6 and (idx[0] == "cast" or idx[0] in ("ref", "deref") or (idx[0] == "app" and re.search(r"CharClassID::as_usize$|CharClassID::id$|From<.*>>::from$|Into<usize>>::into$", str(idx[1])) and len(idx[2]) == 1)):
+                        idx = idx[2] if idx[0] == "cast" else (idx[1] if idx[0] == "deref" else (idx[2][0] if idx[0] == "app" else (idx[1][1] if idx[1][0] == "loc" and not idx[1][2] else idx)))
+                        n_ += 1
+                    tbl = gu[0][2][0]
+                    ok = idx == ("sym", "ch") and S.mentions(tbl, lambda x: x == ("sym", "match_functions")) and not S.mentions(tbl, lambda x: x[0] == "app") \
+                        and S.fstr(r).endswith(", (arg2))") and len([x for x in S.subterms(r) if x == ("sym", "arg2")]) == 1
+                det = S.fstr(r)[:300]
             ob("C08.e", "predicate-indexed-by-class-id", ok, "dispatch closure returns %s" % det, c.loc())
